@@ -37,6 +37,7 @@ type Client struct {
 	q         simrt.WaitQ
 	nextID    uint32
 	Sent      map[uint32]uint16 // request id -> type
+	SentNoReply []uint32
 	SentStep  map[uint32]uint64
 	UserID    uint16
 	LoggedIn  bool
@@ -279,4 +280,12 @@ func (c *Client) DialXfer() *simnet.Conn {
 	x := c.W.Net.Dial(c.W.Srv.LT, c.IP, 40000+c.W.portSeq)
 	c.Xfers = append(c.Xfers, x)
 	return x
+}
+
+// Delay gives up the token k times: the caller falls behind the other threads by a
+// schedule-dependent amount without any simulated time passing.
+func Delay(k int) {
+	for i := 0; i < k; i++ {
+		simrt.Yield("delay")
+	}
 }
